@@ -32,7 +32,8 @@ run() { unshare -rn bash -c "ip link set lo up; $1" ; }
 run "$demo_cmd" > $out/m$k.demo_clean.log 2>&1; dpass=$([ $? -eq 0 ] && echo 1 || echo 0)
 # apply mutant
 if ! git apply "$patch"; then res $out $k 0 0 0 $dpass "patch does not apply"; cd /; git -C /repo worktree remove --force "$wt"; exit 1; fi
-go build ./... > $out/m$k.build.log 2>&1 && go test -count=1 -run '^$' ./... >> $out/m$k.build.log 2>&1; builds=$([ $? -eq 0 ] && echo 1 || echo 0)
+# (in the private network namespace too: the root package's TestMain binds fixed ports even for -run '^$')
+run "go build ./... && go test -vet=off -count=1 -run '^\$' ./..." > $out/m$k.build.log 2>&1; builds=$([ $? -eq 0 ] && echo 1 || echo 0)
 # (3) demo fails with mutant
 run "$demo_cmd" > $out/m$k.demo_mut.log 2>&1; dfail=$([ $? -ne 0 ] && echo 1 || echo 0)
 # (2) suite with mutant, demo files removed
